@@ -44,10 +44,10 @@ def run(prop, tier, seed, replay=None):
         if not beh:
             raise tlc.TLCFailure("AwOwnership generator printed no behaviours:\n" + out[-1500:])
         rnd.shuffle(beh)
-        beh = beh[:(250 if q else 3000)]
+        beh = beh[:(250 if q else 1500)]
         behaviours = [("g%d" % i, b) for i, b in enumerate(beh)]
         backends = store.BACKENDS
-        konc = 4 if q else 24
+        konc = 4 if q else 8
     else:
         behaviours = [("replay", replay["ops"])]
         backends = [replay["backend"]]
